@@ -365,7 +365,75 @@ def formulas(src):
     out.append(flow_sky2image(tree))
     out.append(fit_ranges(tree))
     out.append(distort_starts(tree))
+    out.append(flow_rootfinder(tree))
     return "\n\n".join(out) + "\n"
+
+
+# ---- root finding: _findxy, _findxy_one, _fsolve_xy, _lonlatdiff (any added branch / fallback fails closed) ----
+
+def _stmts(fn):
+    return [ast.unparse(st) for st in _body(fn)]
+
+
+def _nodist_call(txt, args):
+    """the text of `self.sky2image(<args>, find=False, distort=False)`"""
+    return "self.sky2image(%s, find=False, distort=False)" % args
+
+
+def flow_rootfinder(tree):
+    # _fsolve_xy: exactly one call of fsolve on the residual, the start value and xtol; its result is returned as it is
+    fn = _method(tree, "_fsolve_xy")
+    _args(fn, ["self", "xyguess", "xtol"])
+    if [ast.unparse(d) for d in fn.args.defaults] != ["DEFTOL"]:
+        raise TranslateError("_fsolve_xy: default of xtol is not DEFTOL")
+    want = ["import scipy.optimize", "xy = scipy.optimize.fsolve(self._lonlatdiff, xyguess, xtol=xtol)", "return xy"]
+    if _stmts(fn) != want:
+        raise TranslateError("_fsolve_xy is not the single fsolve call on (self._lonlatdiff, xyguess, xtol): %s" % _stmts(fn))
+    # _findxy_one
+    fn = _method(tree, "_findxy_one")
+    _args(fn, ["self", "lon", "lat", "xtol"])
+    if [ast.unparse(d) for d in fn.args.defaults] != ["DEFTOL"]:
+        raise TranslateError("_findxy_one: default of xtol is not DEFTOL")
+    want = ["self.lonlat_answer[0] = lon", "self.lonlat_answer[1] = lat", "xyguess = self.xyguess",
+            "xyguess[0], xyguess[1] = " + _nodist_call("", "lon, lat"), "self.xy_answer[:] = xyguess",
+            "xy = self._fsolve_xy(xyguess, xtol=xtol)", "x, y = (xy[0], xy[1])", "return (x, y)"]
+    if _stmts(fn) != want:
+        raise TranslateError("_findxy_one has an unexpected shape: %s" % _stmts(fn))
+    # _findxy: scalar call or element-wise loop with the same arguments
+    fn = _method(tree, "_findxy")
+    _args(fn, ["self", "lon", "lat", "xtol"])
+    want = ["if isscalar(lon):\n    x, y = self._findxy_one(lon, lat, xtol=xtol)\nelse:\n    x = np.zeros_like(lon)\n"
+            "    y = np.zeros_like(lon)\n    for i in range(lon.size):\n"
+            "        x[i], y[i] = self._findxy_one(lon[i], lat[i], xtol=xtol)", "return (x, y)"]
+    if _stmts(fn) != want:
+        raise TranslateError("_findxy has an unexpected shape: %s" % _stmts(fn))
+    # sky2image hands xtol through, default DEFTOL
+    fn = _method(tree, "sky2image")
+    if [ast.unparse(d) for d in fn.args.defaults] != ["True", "True", "DEFTOL"]:
+        raise TranslateError("sky2image: defaults are %s" % [ast.unparse(d) for d in fn.args.defaults])
+    # _lonlatdiff: residual in the undistorted pixel frame
+    fn = _method(tree, "_lonlatdiff")
+    _args(fn, ["self", "xy"])
+    st = _body(fn)
+    txt = [ast.unparse(x) for x in st]
+    want = ["x = xy[0]", "y = xy[1]", "lon, lat = self.image2sky(x, y)", "xu, yu = " + _nodist_call("", "lon, lat"),
+            "diff = np.zeros(2)", None, None, "return diff"]
+    if len(txt) != len(want) or any(w_ is not None and t_ != w_ for t_, w_ in zip(txt, want)):
+        raise TranslateError("_lonlatdiff has an unexpected shape: %s" % txt)
+    t = Tr({"xu": "(fst xu_)", "yu": "(snd xu_)", "self.xy_answer[0]": "(fst target)", "self.xy_answer[1]": "(snd target)"})
+    d = []
+    for k in (5, 6):
+        a = st[k]
+        if not (isinstance(a, ast.Assign) and ast.unparse(a.targets[0]) == "diff[%d]" % (k - 5)):
+            raise TranslateError("_lonlatdiff: statement %d is %s" % (k, txt[k]))
+        d.append(t.e(a.value))
+    return ("Definition src_lonlatdiff (f_image2sky f_nodistort : R -> R -> R * R) (target xy : R * R) : R * R :=\n"
+            "  let ll_ := f_image2sky (fst xy) (snd xy) in\n  let xu_ := f_nodistort (fst ll_) (snd ll_) in\n  (%s, %s).\n\n"
+            "(* _findxy_one: start value and target of the root finder are both the undistorted inverse of (lon, lat);\n"
+            "   the residual is _lonlatdiff; the result of fsolve is returned unchanged *)\n"
+            "Definition src_findxy_one (f_nodistort : R -> R -> R * R) (f_fsolve : (R * R -> R * R) -> R * R -> R -> R * R)\n"
+            "  (f_resid : R * R -> R * R -> R * R) (lon lat xtol : R) : R * R :=\n"
+            "  let xyguess := f_nodistort lon lat in\n  let target := xyguess in\n  f_fsolve (f_resid target) xyguess xtol." % (d[0], d[1]))
 
 
 # ---- Distort: start values per convention (TPV: the polynomial alone; SIP: a correction added to the input) ----
